@@ -300,7 +300,7 @@ func specMsgFieldsOK(stream int, function int, waitBit int, sessionID int, nSyst
 //@   ensures forall k int :: 0 <= k && k < 4 ==> result.systemBytes[k] == 0
 
 //@ func (*DataMessage).SetWaitBit
-//@   property C18 C11 C12
+//@   property C18 C11 C12 C02 C01
 //@   panics_iff node.waitBit == 2 && waitBit && node.function % 2 == 0
 //@   ensures node.waitBit != 2 ==> result == node
 //@   ensures node.waitBit == 2 ==> fresh(result) && result.waitBit == ite(waitBit, 1, 0)
@@ -309,7 +309,7 @@ func specMsgFieldsOK(stream int, function int, waitBit int, sessionID int, nSyst
 //@   ensures node.waitBit == 2 ==> result.sessionID == node.sessionID && result.systemBytes == node.systemBytes
 
 //@ func (*DataMessage).SetSessionIDAndSystemBytes
-//@   property C18 C11 C12
+//@   property C18 C11 C12 C02 C01
 //@   panics_iff !(-1 <= sessionID && sessionID < 65536)
 //@   ensures fresh(result) && result.sessionID == sessionID
 //@   ensures fresh(result.systemBytes) && len(result.systemBytes) == 4
@@ -324,7 +324,7 @@ func specMsgFieldsOK(stream int, function int, waitBit int, sessionID int, nSyst
 //@     invariant forall k int :: rangeindex < k && k < 4 ==> systemBytesCopy[k] == 0
 
 //@ func (*DataMessage).SystemBytes
-//@   property C11 C17
+//@   property C11 C17 C18
 //@   ensures len(result) == 4 && fresh(result)
 //@   ensures forall k int :: 0 <= k && k < 4 ==> result[k] == node.systemBytes[k]
 
@@ -999,7 +999,7 @@ func specBoolByte(b bool) int {
 // Message framing (SEMI E37) and list encoding
 
 //@ func (*DataMessage).ToBytes
-//@   property C01 C02 C11 C16
+//@   property C01 C02 C11 C16 C18
 //@   let complete = node.waitBit != 2 && nvars(node.dataItem) == 0 && node.sessionID != -1
 //@   let n = enc_len(node.dataItem)
 //@   requires node.dataItem != nil
@@ -1043,7 +1043,7 @@ func specBoolByte(b bool) int {
 // FillVariables: pure substitution (C09)
 
 //@ func (*IntNode).FillVariables
-//@   property C09 C11 C12
+//@   property C09 C11 C12 C13
 //@   maypanic
 //@   let r = cast(result, *IntNode)
 //@   let n = len(node.values)
@@ -1065,7 +1065,7 @@ func specBoolByte(b bool) int {
 //@     invariant forall p int :: 0 <= p && p < n && (forall s string :: has(itervisited, s) ==> node.variables[s] != p) ==> typeis(nodeValues[p], int64) && ival(nodeValues[p]) == node.values[p]
 
 //@ func (*UintNode).FillVariables
-//@   property C09 C11 C12
+//@   property C09 C11 C12 C13
 //@   maypanic
 //@   let r = cast(result, *UintNode)
 //@   let n = len(node.values)
@@ -1087,7 +1087,7 @@ func specBoolByte(b bool) int {
 //@     invariant forall p int :: 0 <= p && p < n && (forall s string :: has(itervisited, s) ==> node.variables[s] != p) ==> typeis(nodeValues[p], uint64) && ival(nodeValues[p]) == node.values[p]
 
 //@ func (*FloatNode).FillVariables
-//@   property C09 C11 C12
+//@   property C09 C11 C12 C13
 //@   maypanic
 //@   let r = cast(result, *FloatNode)
 //@   let n = len(node.values)
@@ -1109,7 +1109,7 @@ func specBoolByte(b bool) int {
 //@     invariant forall p int :: 0 <= p && p < n && (forall s string :: has(itervisited, s) ==> node.variables[s] != p) ==> typeis(nodeValues[p], float64) && fval(nodeValues[p]) == node.values[p]
 
 //@ func (*BinaryNode).FillVariables
-//@   property C09 C11 C12
+//@   property C09 C11 C12 C13
 //@   maypanic
 //@   let r = cast(result, *BinaryNode)
 //@   let n = len(node.values)
@@ -1131,7 +1131,7 @@ func specBoolByte(b bool) int {
 //@     invariant forall p int :: 0 <= p && p < n && (forall s string :: has(itervisited, s) ==> node.variables[s] != p) ==> typeis(nodeValues[p], int) && ival(nodeValues[p]) == node.values[p]
 
 //@ func (*BooleanNode).FillVariables
-//@   property C09 C11 C12
+//@   property C09 C11 C12 C13
 //@   maypanic
 //@   let r = cast(result, *BooleanNode)
 //@   let n = len(node.values)
@@ -1153,7 +1153,7 @@ func specBoolByte(b bool) int {
 //@     invariant forall p int :: 0 <= p && p < n && (forall s string :: has(itervisited, s) ==> node.variables[s] != p) ==> typeis(nodeValues[p], bool) && bval(nodeValues[p]) == node.values[p]
 
 //@ func (*ASCIINode).FillVariables
-//@   property C09 C15 C11 C12
+//@   property C09 C15 C11 C12 C13
 //@   let r = cast(result, *ASCIINode)
 //@   let v = values[node.variable.name]
 //@   let mentioned = !node.isValue && has(values, node.variable.name)
@@ -1182,7 +1182,7 @@ func specBoolByte(b bool) int {
 //@   ensures !node.isValue ==> len(result) == 1 && result[0] == node.variable.name
 
 //@ func (*DataMessage).FillVariables
-//@   property C18 C09 C11
+//@   property C18 C09 C11 C02 C01
 //@   maypanic
 //@   requires node.dataItem != nil
 //@   ensures fresh(result) && result.name == node.name && result.stream == node.stream && result.function == node.function
@@ -1196,7 +1196,7 @@ func specBoolByte(b bool) int {
 //@   ensures result != nil
 
 //@ func (*DataMessage).Variables
-//@   property C16 C11
+//@   property C16 C11 C18
 //@   requires node.dataItem != nil
 //@   ensures fresh(result) && len(result) == nvars(node.dataItem)
 
